@@ -233,6 +233,9 @@ MUTANTS = [
     ("arith-range-index-unchecked-add", "C06", "R-ARITH", "run_index", "crates/runtime/src/vm.rs",
      "                match start.checked_add(index as i64) {\n                    Some(result) => Number(result.into()),\n                    None => return runtime_error!(\"index out of bounds - index: {n}\"),\n                }",
      "                Number((start + index as i64).into())"),
+    ("unsafe-bounds-split-point-unordered", "C15", "R-UNSAFE-BOUNDS", "StringSlice::split", "crates/parser/src/string_slice.rs",
+     "        if split_point <= self.bounds.end.to_usize() && self.data.is_char_boundary(split_point) {",
+     "        if self.data.is_char_boundary(split_point) {"),
 ]
 
 
